@@ -22,21 +22,31 @@ def seeded():
 
 
 def bounds():
-    rows = ['| function | property bound | alarm threshold (method error alone) | established method error, float | double |', '|---|---|---|---|---|']
+    import sys
+    sys.path.insert(0, ROOT)
+    from checks import c10
+    rows = ['| function | bound, float / double (property statement or frozen here) | alarm threshold (method error alone) | established method error, float | double |', '|---|---|---|---|---|']
     best = {}
     for pid, col in (('C10', 0), ('C11', 1)):
         p = os.path.join(ROOT, 'evidence', pid + '.json')
         if not os.path.exists(p):
             continue
         for k in json.load(open(p))['coverage'].get('kernels', []):
-            fn = k['obligation'].split('|')[1]
+            if k['obligation'].startswith('paths|'):
+                continue
+            fn = k['obligation'].split('|')[1].replace('-exp-tiers', '')
             best.setdefault(fn, [None, None])
             v = k.get('ulp')
             if v is not None and (best[fn][col] is None or v > best[fn][col]):
                 best[fn][col] = v
     for fn in sorted(best):
         f32, f64 = best[fn]
-        rows.append('| %s | 4.5 ulp | 8 ulp | %s | %s |' % (fn, '%.3g ulp' % f32 if f32 is not None else '-', '%.3g ulp' % f64 if f64 is not None else '-'))
+        b = c10.CONT.get(fn, (4.5, 4.5))
+        bs = ' / '.join(('%g ulp' % x) if x is not None else 'not frozen' for x in b)
+        if fn == 'lgamma':
+            bs = '8 ulp of max(|result|, 1) / not analysed'
+        thr = ' / '.join(('%g ulp' % (x + 3.5)) if x is not None else '-' for x in b)
+        rows.append('| %s | %s | %s | %s | %s |' % (fn, bs, thr, '%.3g ulp' % f32 if f32 is not None else '-', '%.3g ulp' % f64 if f64 is not None else '-'))
     return '\n'.join(rows)
 
 
